@@ -23,8 +23,10 @@ GEN = ["RegistryParams"]
 RULE = ("lifecycle grid, exhaustive: 8 classes x raise points {before the first sheet, after sheet_iter, after row_iter is created, "
         "in the header phase (loader.header raises), after row k for every k, after exhaustion, no raise} x {path, caller's file object} "
         "+ explicit close() at every position of the full read sequence; random well-formed bodies with closes and raises; "
-        "fresh WBFileRegistry: every sequence of <=3 single-suffix registrations over 2 suffixes x 2 classes + random multi-suffix sequences; "
-        "global registry: every registered suffix and a list of unknown/odd names. Every case is non-trivial (branch = kind/class/outcome); "
+        "registry histories (registrations and opens INTERLEAVED, every open observed in order) on a fresh WBFileRegistry: every sequence of "
+        "<=4 (quick) / <=5 (thorough) operations over {register .a->1, .a->2, .b->1, open f.a, open f.b} + random multi-suffix histories; "
+        "on the global registry: histories with a throw-away suffix and override/restore of a registered suffix, plus every registered suffix "
+        "and a list of unknown/odd names. Every case is non-trivial (branch = kind/class/outcome); "
         "distinct = distinct case lines.")
 TRIVIAL_BRANCHES = [0]
 ASSUMPTIONS = [
@@ -225,19 +227,38 @@ def inputs(ctx):
         cid = rng.randint(1, 8)
         mode = rng.choice([0, 0, 1]) if cid in ACCEPTS_FILE else rng.choice([0, 0, 0, 0, 1])
         yield "random_body", {"kind": 1, "cls": cid, "mode": mode, "body": _random_body(rng, cid)}
-    # fresh registries
-    ctx.exhaustive.append("registry_sequences_len<=3_over_2_suffixes_x_2_classes")
-    singles = [(s, c) for s in (".a", ".b") for c in (1, 2)]
-    for n in range(4):
-        for seq in itertools.product(singles, repeat=n):
-            yield "registry_exhaustive", {"kind": 2, "regs": [[[s], c] for s, c in seq], "lookups": ["f.a", "f.b", "f.c", "f"]}
-    count = 300 if ctx.tier == "quick" else 6000
+    # histories on a fresh registry: registrations and opens interleaved
+    maxlen = 4 if ctx.tier == "quick" else 5
+    ctx.exhaustive.append(f"registry_histories_len<={maxlen}_over_3_registrations_and_2_opens")
+    alphabet = [["r", [".a"], 1], ["r", [".a"], 2], ["r", [".b"], 1], ["o", "f.a"], ["o", "f.b"]]
+    for n in range(maxlen + 1):
+        for seq in itertools.product(alphabet, repeat=n):
+            yield "history_exhaustive", {"kind": 2, "ops": [list(o) for o in seq]}
+    count = 400 if ctx.tier == "quick" else 8000
     for _ in range(count):
-        regs = []
-        for _ in range(rng.randint(0, 8)):
-            regs.append([[rng.choice(SUFFIX_POOL) for _ in range(rng.choice([0, 1, 1, 1, 2, 3]))], rng.randint(1, 6)])
-        lookups = ["f" + s for s in SUFFIX_POOL if s] + rng.sample(LOOKUP_EXTRA, 4)
-        yield "registry_random", {"kind": 2, "regs": regs, "lookups": lookups}
+        pool = rng.sample(SUFFIX_POOL, rng.randint(1, 4))
+        names = ["f" + s for s in pool] + rng.sample(LOOKUP_EXTRA, 2)
+        ops = []
+        for _ in range(rng.randint(1, 14)):
+            if rng.random() < 0.5:
+                ops.append(["r", [rng.choice(pool) for _ in range(rng.choice([0, 1, 1, 1, 2, 3]))], rng.randint(1, 6)])
+            else:
+                ops.append(["o", rng.choice(names)])
+        yield "history_random", {"kind": 2, "ops": ops}
+    # histories on the global registry: a throw-away suffix, and a registered suffix overridden and restored
+    # (class ids 11.. are runner-made classes; every history ends in the state it started from)
+    for suf, real, cid in [(".csv", "g.csv", 1), (".json", "g.json", 2), (".ndjson", "g.ndjson", 2), (".xlsx", "g.xlsx", 4)]:
+        yield "global_history", {"kind": 4, "ops": [["o", real], ["r", [suf], 11], ["o", real], ["r", [suf], 12], ["o", real],
+                                                     ["r", [suf], cid], ["o", real]], "drop": []}
+    for i in range(6 if ctx.tier == "quick" else 60):
+        suf = rng.choice([".zzq", ".c14tmp", ".Zq"])
+        name = "g" + suf
+        ops = [["o", name]]
+        for _ in range(rng.randint(2, 8)):
+            ops.append(["r", [suf] + ([".zzq2"] if rng.random() < 0.3 else []), rng.randint(11, 14)] if rng.random() < 0.5
+                       else ["o", rng.choice([name, name, "g.zzq2", "g.csv"])])
+        ops.append(["o", name])
+        yield "global_history", {"kind": 4, "ops": ops, "drop": [".zzq", ".c14tmp", ".Zq", ".zzq2"]}
     # the global registry
     names = ["g.csv", "g.json", "g.ndjson", "g.jsonnl", "g.xls", "g.xlsx", "g.ods", "g.numbers",
              "g.tab", "g.txt", "g", "g.", ".csv", "g.CSV", "g.csv.bak", "a.b.csv", "g.xlsx.csv", "g.Json", "g.xlsm",
@@ -334,34 +355,62 @@ def _lifecycle(st, inp):
     return [1, cid, mode, body, [a, cres, counts, escaped, c, closed, sc, c2, d]]
 
 
-def _fresh(st, inp):
-    reg = st["W"].WBFileRegistry()
+def _history(st, inp):
+    """Registrations and opens in the order given, on a fresh WBFileRegistry (kind 2) or on the global one (kind 4)."""
+    on_global = inp["kind"] == 4
+    reg = st["W"].file_registry if on_global else st["W"].WBFileRegistry()
     log, classes = [], {}
 
     def mk(cid):
+        if on_global and cid in ID_NAMES:
+            return st["classes"][cid]          # restoring a real class
+
         class K:
             def __init__(self, source, *a, **kw):
                 log.append(cid)
         K.cid = cid
         return K
 
-    for suffixes, cid in inp["regs"]:
-        if cid not in classes:
-            classes[cid] = mk(cid)
-        reg.file_suffix(*suffixes)(classes[cid])
     out = []
-    for name in inp["lookups"]:
-        p = st["root"] / name
-        del log[:]
-        try:
-            wb = reg.open_workbook(p)
-            res = [0, getattr(type(wb), "cid", 0)]
-        except (KeyboardInterrupt, SystemExit, MemoryError):
-            raise
-        except BaseException as ex:
-            res = [1, exn_code(ex)]
-        out.append([S(name), S(p.suffix), res, list(log)])
-    return [2, [[[S(s) for s in sufs], cid] for sufs, cid in inp["regs"]], out]
+    try:
+        for op in inp["ops"]:
+            if op[0] == "r":
+                _, suffixes, cid = op
+                if cid not in classes:
+                    classes[cid] = mk(cid)
+                reg.file_suffix(*suffixes)(classes[cid])
+                out.append([0, [S(s) for s in suffixes], cid])
+            else:
+                name = op[1]
+                p = _reg_file(st, name) if on_global else st["root"] / name
+                del log[:]
+                wb = None
+                try:
+                    wb = reg.open_workbook(p)
+                    t = type(wb)
+                    res = [0, getattr(t, "cid", None) or CLASS_IDS.get(t.__name__, 0)]
+                except (KeyboardInterrupt, SystemExit, MemoryError):
+                    raise
+                except BaseException as ex:
+                    res = [1, exn_code(ex)]
+                ctor = list(log)
+                if wb is not None and not hasattr(type(wb), "cid"):
+                    ctor = [res[1]]            # a real workbook class: its constructor is what returned wb
+                    try:
+                        wb.close()
+                    except Exception:
+                        pass
+                wb = None
+                out.append([1, S(name), S(p.suffix), res, ctor])
+    finally:
+        if on_global:
+            for suf in inp.get("drop", []):
+                try:
+                    reg.suffix_map.pop(suf, None)
+                except Exception:
+                    pass
+            gc.collect()
+    return [inp["kind"], out]
 
 
 def _global(st, inp):
@@ -397,8 +446,8 @@ def observe(ctx, inp):
     kind = inp["kind"]
     if kind == 1:
         return _lifecycle(st, inp)
-    if kind == 2:
-        return _fresh(st, inp)
+    if kind in (2, 4):
+        return _history(st, inp)
     return _global(st, inp)
 
 
@@ -406,7 +455,7 @@ def describe(inp):
     if inp["kind"] == 1:
         return (f"with {ID_NAMES.get(inp['cls'], inp['cls'])}({'path, file_object' if inp['mode'] else 'path'}) as wb: "
                 + "; ".join(CODE_NAMES.get(c, str(c)) for c in inp["body"]))
-    if inp["kind"] == 2:
-        return "fresh WBFileRegistry: " + "; ".join(f"file_suffix({', '.join(map(repr, s))})(K{c})" for s, c in inp["regs"]) \
-            + " | open_workbook of " + ", ".join(map(repr, inp["lookups"]))
+    if inp["kind"] in (2, 4):
+        return ("fresh WBFileRegistry: " if inp["kind"] == 2 else "global file_registry: ") + "; ".join(
+            (f"file_suffix({', '.join(map(repr, o[1]))})(K{o[2]})" if o[0] == "r" else f"open_workbook({o[1]!r})") for o in inp["ops"])
     return f"open_workbook({inp['name']!r}) on the global registry"
